@@ -27,7 +27,7 @@ type vfVecGen struct {
 func vfNewVecGen(rt *rapid.T, dim int) *vfVecGen {
 	g := &vfVecGen{dim: dim}
 	g.flavour = rapid.IntRange(0, 4).Draw(rt, "vec_flavour")
-	g.scale = rapid.SampledFrom([]float64{1e-3, 0.1, 1, 10, 1e3}).Draw(rt, "vec_scale")
+	g.scale = rapid.SampledFrom([]float64{1e-3, 0.1, 1, 10, 1e3, 1e-9, 1e9}).Draw(rt, "vec_scale")
 	return g
 }
 
